@@ -53,7 +53,7 @@ fn main() {
                 if req.is_empty() {
                     continue;
                 }
-                let ans = if req.starts_with("cli ") { l4::answer(req) } else if req.starts_with("asm ") || req.starts_with("run ") { l3::answer(req) } else if req.starts_with("x ") || req.starts_with("xr ") || req.starts_with("xs ") { l2::answer(req) } else { l1::answer(req) };
+                let ans = if req.starts_with("cli ") { l4::answer(req) } else if req.starts_with("asm ") || req.starts_with("asm2 ") || req.starts_with("run ") { l3::answer(req) } else if req.starts_with("x ") || req.starts_with("xr ") || req.starts_with("xs ") { l2::answer(req) } else { l1::answer(req) };
                 writeln!(out, "{} => {}", req, ans).unwrap();
             }
         }
